@@ -285,7 +285,7 @@ CssClassRanges == <<
    [sym |-> "Z", lo |-> 65, hi |-> 75], [sym |-> "Z", lo |-> 77, hi |-> 81], [sym |-> "Z", lo |-> 84, hi |-> 84],
    [sym |-> "Z", lo |-> 86, hi |-> 90], [sym |-> "OP", lo |-> 94, hi |-> 94], [sym |-> "OP", lo |-> 96, hi |-> 96],
    [sym |-> "f", lo |-> 98, hi |-> 100], [sym |-> "f", lo |-> 102, hi |-> 102], [sym |-> "z", lo |-> 103, hi |-> 103],
-   [sym |-> "z", lo |-> 106, hi |-> 107], [sym |-> "z", lo |-> 110, hi |-> 110], [sym |-> "z", lo |-> 113, hi |-> 113],
+   [sym |-> "z", lo |-> 106, hi |-> 107], [sym |-> "z", lo |-> 113, hi |-> 113],
    [sym |-> "z", lo |-> 118, hi |-> 120], [sym |-> "z", lo |-> 122, hi |-> 122], [sym |-> "OP", lo |-> 124, hi |-> 124],
    [sym |-> "OP", lo |-> 126, hi |-> 126], [sym |-> "CTL", lo |-> 127, hi |-> 127],
    [sym |-> "NA", lo |-> 128, hi |-> 132], [sym |-> "UWS", lo |-> 133, hi |-> 133], [sym |-> "NA", lo |-> 134, hi |-> 159],
